@@ -142,6 +142,11 @@ def to_mutation(spec, e):
                 kw['null'] = bool(nf.get('null', False))
         if e.get('initial') is not None:
             kw['initial'] = initial_object(e['initial'])
+        if e.get('restate_type'):
+            # the hand-written form that names the current field type again
+            # next to the attribute it changes
+            kw['field_type'] = S.field_class(
+                S.get_field(spec, e['app'], e['model'], e['name'])['kind'])
         return M.ChangeField(e['model'], e['name'], **kw)
     if op == 'change_meta':
         return M.ChangeMeta(e['model'], e['prop'],
